@@ -23,7 +23,7 @@ PROP = 'C09'
 
 LMS = ['MPIRUN', 'MPIRUN_MPT', 'MPIRUN_RSH', 'MPIRUN_CCMRUN', 'MPIRUN_DPLACE',
        'MPIEXEC', 'MPIEXEC', 'MPIEXEC', 'MPIEXEC_MPT', 'SRUN', 'SRUN', 'APRUN',
-       'IBRUN', 'SSH', 'RSH', 'CCMRUN']
+       'IBRUN', 'SSH', 'RSH', 'CCMRUN', 'JSRUN', 'JSRUN_ERF', 'PRTE']
 
 
 def gen(rng, tier):
@@ -85,6 +85,39 @@ def gen(rng, tier):
             g = t['descr'].get('gpus_per_rank') or 0
             if g != int(g):
                 t['descr']['gpus_per_rank'] = 0
+    if lm == 'PRTE':
+        # PRRTE: one DVM per partition; the scheduler of this tree assigns no
+        # partition (the launcher then refuses by raising), application made
+        # placements name the partition which holds their nodes
+        lay['lms'] = [lm]
+        lay['prte_dvms'] = rng.choice([1, 1, 2, 3])
+        lay['agent_nodes'] = 0
+        app = rng.random() < 0.8
+        for t in sc['tasks']:
+            t['preplaced'] = app
+            if app:
+                t['at'] = 0.0
+                if rng.random() < 0.5:
+                    t['shuffle'] = rng.randint(1, 10 ** 6)
+                t['descr'].pop('ranks_per_node', None)
+                t['descr'].pop('tags', None)
+                g = t['descr'].get('gpus_per_rank') or 0
+                if g != int(g):
+                    t['descr']['gpus_per_rank'] = 0
+    if lm.startswith('JSRUN'):
+        # resource-set based launcher: served by the ContinuousJsrun
+        # scheduler only (its own slot format), placements by the scheduler
+        # (as in the Summit configuration both flavours are configured, the
+        # first in the order serves the tasks)
+        lay['lms'] = [lm] if lm == 'JSRUN' else [lm, 'JSRUN']
+        sc['jsrun'] = True
+        lay.pop('ibrun_tpn', None)
+        for t in sc['tasks']:
+            t['preplaced'] = False
+            t.pop('shuffle', None)
+            d = t['descr']
+            if lay['gpn'] and d.get('ranks', 1) > 1 and rng.random() < 0.4:
+                d['gpus_per_rank'] = rng.choice([0.5, 0.5, 0.25])
     sc['c09'] = True
     sc['preempt'] = 0.0
     return sc
@@ -164,6 +197,16 @@ def parse(name, cmd, files):
                     plain.append(l)
             if plain:
                 out['node_set'] = set(plain)
+                # hosts without a process count: `--ppn P` fills P processes
+                # per host in file order (PALS), otherwise the processes go
+                # round-robin, one per host (Hydra)
+                ppn = opt('--ppn')
+                if ppn:
+                    out['nodes'] = [h for h in plain
+                                    for _ in range(int(ppn))][:out['nprocs']]
+                else:
+                    out['nodes'] = [plain[i % len(plain)]
+                                    for i in range(out['nprocs'])]
                 bind = opt('--cpu-bind')
                 if bind and bind.startswith('list:'):
                     pins = list()
@@ -207,6 +250,46 @@ def parse(name, cmd, files):
             hostlist = [name_ for name_ in alloc for _ in range(tpn)]
             out['nodes'] = hostlist[off:off + out['nprocs']]
             out['tpn']   = tpn
+    elif n.startswith('JSRUN'):
+        erf = opt('--erf_input')
+        names = files.get('__index__') or {}
+        if erf:
+            # explicit resource file: one line per resource set,
+            #   rank: 0,1 : { host: 1; cpu: {0,1},{2,3}; gpu: {0} }
+            nodes, pins, gpins, ids = list(), list(), list(), list()
+            for l in (files.get(erf) or '').splitlines():
+                m = re.match(r'rank: ([\d,]+) : \{ host: (\S+); cpu: (.*?)'
+                             r'(?:; gpu: \{([\d,]*)\})? \}$', l.strip())
+                if not m:
+                    continue
+                cpus = re.findall(r'\{([\d,]*)\}', m.group(3))
+                gset = [int(x) for x in (m.group(4) or '').split(',') if x]
+                for i, r in enumerate(m.group(1).split(',')):
+                    ids.append(int(r))
+                    nodes.append(names.get(m.group(2), 'index:' + m.group(2)))
+                    pins.append([int(x) for x in cpus[i].split(',') if x]
+                                if i < len(cpus) else [])
+                    gpins.append(gset)
+            out['nprocs'] = len(ids)
+            out['rank_ids'] = ids
+            out['nodes'], out['pins'], out['gpins'] = nodes, pins, gpins
+        else:
+            # resource sets by numbers: -n RS, -a ranks / RS, -c physical
+            # cores / RS, -g GPUs / RS (jsrun picks the nodes itself)
+            m = re.search(r' -n(\d+) -a(\d+) -c(\d+) -g(\d+)', cmd)
+            n_rs, a, c, g = [int(x) for x in m.groups()]
+            out['nprocs'] = n_rs * a
+            out['rs'] = {'n': n_rs, 'a': a, 'c': c, 'g': g}
+    elif n == 'PRTE':
+        # prun --dvm-uri "<uri>" --np N ... --host node:count,...
+        out['nprocs'] = int(opt('--np'))
+        nodes = list()
+        for ent in (opt('--host') or '').split(','):
+            if ent:
+                name_, _, cnt = ent.rpartition(':')
+                nodes += [name_] * int(cnt)
+        out['nodes'] = nodes
+        out['dvm_uri'] = (opt('--dvm-uri') or '').strip('"')
     elif n in ('APRUN', 'CCMRUN'):
         out['nprocs'] = int(opt('-n'))
     elif n in ('SSH', 'RSH'):
@@ -217,7 +300,7 @@ def parse(name, cmd, files):
 
 def referenced_files(cmd):
     return [t.split('=', 1)[-1] for t in cmd.split()
-            if re.search(r'\.(hosts|rf|hf|nodes)$', t)]
+            if re.search(r'\.(hosts|rf|hf|nodes|rs)$', t)]
 
 
 # ------------------------------------------------------------------------------
@@ -244,7 +327,9 @@ def install_spy(sim, st):
         def spy(task, exec_path, _name=name, _lm=lm, _real=real,
                 _cfg=pristine):
             slots = copy.deepcopy(task['slots'])
-            rec = {'uid': task['uid'], 'lm': _name, 'slots': A.norm_slots(slots),
+            rec = {'uid': task['uid'], 'lm': _name,
+                   'slots': A.norm_slots(slots,
+                                         jsrun=_name.startswith('JSRUN')),
                    'ranks': task['description']['ranks'],
                    'cores_per_rank': task['description']['cores_per_rank'],
                    'cmd': None, 'files': {}, 'exc': None, 'fresh': None,
@@ -256,6 +341,11 @@ def install_spy(sim, st):
                     rec['files'][f] = _read(f)
                 rec['files']['__hostname__'] = sim.data.get('hostname',
                                                             'localhost')
+                rec['files']['__index__'] = {
+                    str(nd['index']): nd['name']
+                    for nd in _lm._rm_info.node_list}
+                rec['files']['__tpc__'] = int(
+                    _lm._rm_info.get('threads_per_core') or 1)
                 rec['files']['__nodes__'] = [
                     nd['name'] for nd in _lm._rm_info.node_list]
                 rec['cpn'] = _lm._rm_info.get('cores_per_node')
@@ -317,6 +407,12 @@ def oracle(sim, sc, st):
                 site = 'IBRUN:non_contiguous'
         if p['nprocs'] is not None and p['nprocs'] != rec['ranks']:
             sim.violation(PROP, 'nprocs', site, det)
+        nsite = site
+        if p['nodes'] is not None and ' --ppn ' in rec['cmd'] and \
+                len({want_nodes.count(n_) for n_ in set(want_nodes)}) > 1:
+            # told apart by the *input*: one `--ppn` value cannot express a
+            # placement with different rank counts per node
+            nsite = site + ':ppn_nonuniform'
         if p['nodes'] is not None:
             got = sorted(p['nodes'])
             if rec['lm'].upper() == 'FORK' and want_nodes == ['localhost']:
@@ -325,11 +421,11 @@ def oracle(sim, sc, st):
                     'MPT' in rec['lm'].upper():
                 pass
             if set(got) - set(want_nodes):
-                sim.violation(PROP, 'node_outside', site, det)
+                sim.violation(PROP, 'node_outside', nsite, det)
             elif set(want_nodes) - set(got):
-                sim.violation(PROP, 'node_omitted', site, det)
+                sim.violation(PROP, 'node_omitted', nsite, det)
             elif got != want_nodes:
-                sim.violation(PROP, 'node_counts', site, det)
+                sim.violation(PROP, 'node_counts', nsite, det)
         if p.get('node_dups') or (p.get('n_nodes') is not None and
                                   p['node_set'] is not None and
                                   p['n_nodes'] != len(p['node_set'])):
@@ -352,6 +448,37 @@ def oracle(sim, sc, st):
                 sim.violation(PROP, 'pin_wrong', site,
                               dict(det, pins=p['pins'][:8],
                                    want=want_pins[:8]))
+        if p.get('dvm_uri') is not None:
+            # the DVM addressed must be the one which holds the placement
+            dl = A.lm_info('PRTE', sc['layout'])['details']['dvm_list']
+            idx = {s['node_index'] for s in slots}
+            ok_ = [dv['dvm_uri'] for dv in dl.values()
+                   if idx <= set(dv['nodes'])]
+            if p['dvm_uri'] not in ok_:
+                sim.violation(PROP, 'wrong_partition', site,
+                              dict(det, dvms=ok_))
+        if p.get('rank_ids') is not None and \
+                sorted(p['rank_ids']) != list(range(len(p['rank_ids']))):
+            sim.violation(PROP, 'rank_ids', site, det)
+        if p.get('gpins') is not None:
+            want_g = [sorted(g for g, _ in s['gpus']) for s in slots]
+            if [sorted(x) for x in p['gpins']] != want_g:
+                sim.violation(PROP, 'gpu_pin_wrong', site,
+                              dict(det, gpins=p['gpins'][:8],
+                                   want=want_g[:8]))
+        if p.get('rs'):
+            # resource sets by numbers: the shape of one resource set must be
+            # the shape of the placement's resource sets
+            rs   = p['rs']
+            tpc  = rec['files'].get('__tpc__') or 1
+            a    = slots[0].get('rs_ranks') or 1
+            cpr  = len(slots[0]['cores'])
+            want = {'n': len(slots) // a, 'a': a,
+                    'c': -(-cpr // tpc) * a,
+                    'g': len({g for g, _ in slots[0]['gpus']})}
+            if rs != want:
+                sim.violation(PROP, 'resource_set_shape', site,
+                              dict(det, want=want))
         if rec['fresh'] is not None and rec['fresh'] != rec['cmd']:
             sim.violation(PROP, 'residue', site,
                           dict(det, fresh=rec['fresh']))
@@ -387,9 +514,13 @@ INFO   = dict(S.INFO)
 INFO['real'] = INFO['real'] + [
     'LaunchMethod.get_launch_cmds/can_launch of Fork, MPIRun (+MPT/RSH/CCMRUN/'
     'DPLACE), MPIExec (+MPT; rank file, host file, PALS, -f), Srun (old/new), '
-    'APRun, IBRun, SSH, RSH, CCMRun', 'ru.create_hostfile']
+    'APRun, IBRun, SSH, RSH, CCMRun, JSRun (resource sets by numbers and '
+    'ERF file; placements by the real ContinuousJsrun scheduler), PRTE '
+    '(1-3 DVMs / partitions)', 'ru.create_hostfile']
 INFO['stub'] = INFO['stub'] + ['launcher binaries (commands are parsed, not '
-                               'executed)', 'JSRUN / PRTE not driven']
+                               'executed)', 'PRTE DVM start-up (the launcher '
+                               'is initialised from a registry record as '
+                               'sub-agents and the executor do)']
 INFO['rule'] = ('scenario = C01 style layout on Slurm node names with a '
                 'seeded launcher configuration (order, flavour, rank/host file '
                 'modes, srun version, >42 host thresholds) and 2-8 tasks; '
